@@ -106,6 +106,7 @@ def run(chk: core.Check, tier: str, seed: int) -> None:
     for q in ["$[?length(@) == 1]", "$[?count(@.*) == 1]", "$[?value(@.*) == 1]", "$[?match(@, 'a')]", "$[?f(@)]", "$[?kv(@) == 1]"]:
         recs.append(impl.rec_find(jp, q, probe_doc, edoc=eprobe))
         recs.append(impl.rec_compile(jp, q))
+    recs += common.inplace_edit_records(jp, common.ROOT_QUERIES)
     for r in recs:
         if r.get("locs") or r.get("calls"):
             chk.nontrivial.add((tuple(r["q"]), r["op"]))
